@@ -73,6 +73,12 @@ pub struct RDebug {
     r_ldbase: ElfAddr, /* Base address the linker is loaded at.  */
 }
 
+/// Upper bound for the size of the dynamic section we are willing to walk looking for `DT_NULL`
+const MAX_DYNAMIC_SECTION_SIZE: usize = 1024 * 1024;
+/// Upper bound for the number of entries of the linker's `link_map` list we follow; the list
+/// lives in the (possibly corrupted) target and may well be cyclic
+const MAX_DSO_COUNT: usize = 64 * 1024;
+
 pub fn write_dso_debug_stream(
     buffer: &mut Buffer,
     blamed_thread: i32,
@@ -85,7 +91,12 @@ pub fn write_dso_debug_stream(
         .get_program_header_address()
         .ok_or(SectionDsoDebugError::CouldNotFind("AT_PHDR in auxv"))? as usize;
 
-    let ph = PtraceDumper::copy_from_process(blamed_thread, phdr, SIZEOF_PHDR * phnum_max)?;
+    let ph_size = SIZEOF_PHDR
+        .checked_mul(phnum_max)
+        .ok_or(SectionDsoDebugError::CouldNotFind(
+            "a plausible AT_PHNUM in auxv",
+        ))?;
+    let ph = PtraceDumper::copy_from_process(blamed_thread, phdr, ph_size)?;
     let program_headers;
     #[cfg(target_pointer_width = "64")]
     {
@@ -108,7 +119,8 @@ pub fn write_dso_debug_stream(
         // Adjust base address with the virtual address of the PT_LOAD segment
         // corresponding to offset 0
         if ph.p_type == goblin::elf::program_header::PT_LOAD && ph.p_offset == 0 {
-            base -= ph.p_vaddr as usize;
+            // All of this comes from the target: plain address arithmetic, as the linker does
+            base = base.wrapping_sub(ph.p_vaddr as usize);
         }
         if ph.p_type == goblin::elf::program_header::PT_DYNAMIC {
             dyn_addr = ph.p_vaddr;
@@ -121,7 +133,7 @@ pub fn write_dso_debug_stream(
         ));
     }
 
-    dyn_addr += base as ElfAddr;
+    dyn_addr = dyn_addr.wrapping_add(base as ElfAddr);
 
     let dyn_size = std::mem::size_of::<goblin::elf::Dyn>();
     let mut r_debug = 0usize;
@@ -131,9 +143,14 @@ pub fn write_dso_debug_stream(
     // DSOs loaded into the program. If this information is indeed available,
     // dump it to a MD_LINUX_DSO_DEBUG stream.
     loop {
+        if dynamic_length >= MAX_DYNAMIC_SECTION_SIZE {
+            return Err(SectionDsoDebugError::CouldNotFind(
+                "DT_NULL in the dynamic section",
+            ));
+        }
         let dyn_data = PtraceDumper::copy_from_process(
             blamed_thread,
-            dyn_addr as usize + dynamic_length,
+            (dyn_addr as usize).wrapping_add(dynamic_length),
             dyn_size,
         )?;
         dynamic_length += dyn_size;
@@ -170,7 +187,7 @@ pub fn write_dso_debug_stream(
     // Count the number of loaded DSOs
     let mut dso_vec = Vec::new();
     let mut curr_map = debug_entry.r_map;
-    while curr_map != 0 {
+    while curr_map != 0 && dso_vec.len() < MAX_DSO_COUNT {
         let link_map_data = PtraceDumper::copy_from_process(
             blamed_thread,
             curr_map,
